@@ -186,6 +186,9 @@ fn gen_scenario(rng: &mut Rng, force_links: bool) -> Scenario {
     if rng.chance(1, 4) {
         link(&mut nodes, &mut flags, format!("{r}/res/sub/l_fsroot"), "/".into(), "fsroot");
     }
+    if p(rng) {
+        link(&mut nodes, &mut flags, format!("{r}/l"), "../outside/dir".into(), "short-dir-out");
+    }
     if rng.chance(1, 3) {
         link(&mut nodes, &mut flags, "outside/back".into(), "../root".into(), "outside-back");
     }
@@ -295,6 +298,7 @@ fn gen_id(rng: &mut Rng, base_rel: &str) -> (String, &'static str) {
                     "l_out/secret2.bin".to_string(),
                     "lf_out.jpg".to_string(),
                     "ld_out/icon.png".to_string(),
+                    format!("{p}l/secret2.bin"),
                 ];
                 (rng.pick(&c).clone(), "outside-existing")
             }
@@ -315,6 +319,7 @@ fn gen_id(rng: &mut Rng, base_rel: &str) -> (String, &'static str) {
                     "l_out/new.bin".to_string(),
                     "ld_out/new.bin".to_string(),
                     "dang_out.jpg".to_string(),
+                    format!("{p}l/new.bin"),
                 ];
                 (rng.pick(&c).clone(), "outside-new")
             }
@@ -1114,6 +1119,9 @@ fn gen_op(rng: &mut Rng, scen: &Scenario, sh: &Shared) -> OpCase {
                     ".".into(),
                     "x//y".into(),
                     "loop/x".into(),
+                    "../../l/x".into(),
+                    "../../../l/x".into(),
+                    "l/x".into(),
                 ];
                 let h = rng.pick(&hostile).clone();
                 fit(&h, n, rng).unwrap_or_default()
@@ -1160,7 +1168,7 @@ fn directed(sh: &Shared) -> Vec<(Scenario, OpCase)> {
     let mut out = Vec::new();
     let ids = [
         "ld_out/new.bin", "ld_out/secret2.bin", "lf_out.jpg", "dang_out.jpg", "chain1.jpg", "res/upup/outside/new.bin", "ld_out/newdir/new.bin", "../outside/secret.txt", "$S/outside/secret.txt", "..\\outside\\secret.txt",
-        "res/up/../outside/secret.txt", "res/up/../new.bin", "a.jpg", "res/icon.png", "lf_in.jpg", "new.bin", "%2e%2e/outside/secret.txt",
+        "res/up/../outside/secret.txt", "res/up/../new.bin", "a.jpg", "res/icon.png", "lf_in.jpg", "new.bin", "%2e%2e/outside/secret.txt", "res/../../outside/new.bin", "x/../../outside/secret.txt", "l/new.bin",
     ];
     for op in ["add", "get", "exists", "write_stream", "path_for_id", "builder.add_resource", "builder.sign-thumb"] {
         for id in ids {
@@ -1341,6 +1349,9 @@ fn main() {
             run.eval();
             run.count(&format!("op:{}", o.op.op), 1);
             run.count(&format!("outcome:{}:{}", o.op.op, o.res.outcome.split(':').next().unwrap_or("")), 1);
+            if o.op.op == "to_folder" || o.op.op == "archive" {
+                run.count(&format!("detail:{}:{}:{}", o.op.op, o.op.args.get(if o.op.op == "archive" { 1 } else { 3 }).cloned().unwrap_or_default(), o.res.outcome), 1);
+            }
             for (k, n) in &o.res.counters {
                 run.count(k, *n);
             }
